@@ -1080,6 +1080,10 @@ func ruleC15(c *Ctx, r *Report) {
 				"cmd["+k+"] is walked under the field-name mode",
 				"cmd["+k+"] is never walked: the field names renamed in the filter, the sort document and the plan summary remain in clear as keys of "+k)
 		}
+		// a member whose VALUE is a field name: distinct.key
+		r.Check(len(zs["key"]) > 0, "C15-R3", fmt.Sprintf("%s:field-name-value(key)", cmdFn.Name()), c.Pos(cmdFn.Pos()),
+			"cmd[key] (the field of a distinct command) is renamed under the field-name mode",
+			"cmd[key] is never rewritten: the field a distinct command asks for stays in clear although the same name is renamed in its query and in the plan summary (DISTINCT_SCAN { ... })")
 	}
 	// output-field names that later stages use as field names are FieldName positions
 	// (kept in clear by default, renamed with the field under the flag) - not Exempt
